@@ -22,10 +22,10 @@ CHECKS = {
                 text="Each input is delivered under many (read-size schedule, buffer size) pairs, down to 1-byte reads into a 1-byte buffer, and through YY_INPUT, user yyread, stdio fread, stdio getc and read(2); every run must reproduce the buffering-free model's stream.  Interactive builds log bytes delivered at each token, bounded by the model's look-ahead need.",
                 ref="4 C03"),
     "C04": dict(cat="exploration", tech="co-simulation with NUL/high-byte inputs at read boundaries across table representations, under ASan/UBSan",
-                text="Rule sets with and without NUL/8-bit bytes, inputs with NULs at read boundaries, token starts/ends and before EOF, across all table representations, interactive and batch, 7- and 8-bit, co-simulated with the model in which bytes 0-255 are plain symbols.",
+                text="Rule sets with and without NUL/8-bit bytes, inputs with NULs at read boundaries, token starts/ends and before EOF, across all table representations, interactive and batch, 7- and 8-bit, co-simulated with the model in which bytes 0-255 are plain symbols.  -Cfe/-CFe cases partly leave the 8-bit default to flex; C++ scanners also read through the class's own LexerInput() on a std::istream.",
                 ref="4 C04"),
     "C05": dict(cat="exploration", tech="co-simulation of start-condition/stack histories against the model",
-                text="1-60 inclusive/exclusive conditions, rules attached by list, <*>, none and nested scopes; yybegin/push/pop/top from actions and between calls, stack growth beyond the initial allocation, underflow through the fatal-error hook; the driver visits every condition with probe strings of every rule so that inactivity is observed too.",
+                text="1-60 inclusive/exclusive conditions, rules attached by list, <*>, none and nested scopes; yybegin/push/pop/top from actions and between calls, stack growth beyond the initial allocation, underflow through the fatal-error hook; the driver visits every condition with probe strings of every rule so that inactivity is observed too.  The stack and the current condition are also used before yylex() has ever run.",
                 ref="4 C05"),
     "C06": dict(cat="exploration", tech="co-simulation with head/trail split oracle (set of valid splits)",
                 text="Rule sets with ^, $, fixed and variable trailing context, '|' actions and yysetbol; the model computes the set of valid head lengths for r/s and the observed yyleng must be one of them, scanning resuming right after the head; rule sets with the 'dangerous trailing context' warning are skipped as the property says.",
@@ -40,22 +40,22 @@ CHECKS = {
                 text="yylineno is logged at every action/EOF action and compared with 1 + newlines consumed per the property's definition, for rules that can match newline through every syntactic route, with yyless/yyunput/yyinput/yymore/REJECT, per-buffer counts in reentrant scanners, and the option off.",
                 ref="4 C09"),
     "C10": dict(cat="exploration", tech="co-simulation of end-of-input histories (yywrap chains, <<EOF>> rules, restart/new yyin)",
-                text="1-5 sources (empty ones, ones ending inside a token) chained by scripted yywrap, <<EOF>> rules per condition/unqualified/none, EOF actions that terminate, return or restart, and post-termination new-yyin/yyrestart; W/E/R events make every yywrap consultation and EOF action visible.",
+                text="1-5 sources (empty ones, ones ending inside a token) chained by scripted yywrap, <<EOF>> rules per condition/unqualified/none, EOF actions that terminate, return or restart, and post-termination new-yyin/yyrestart; W/E/R events make every yywrap consultation and EOF action visible.  Also: sources that report end of input once and then go on (yywrap returns 0, yyin unchanged), and programs that start on a string buffer and continue with files.",
                 ref="4 C10"),
     "C11": dict(cat="exploration", tech="co-simulation of random buffer-operation histories with shared validity guards",
-                text="Random histories of create/switch/push/pop/delete/scan_bytes/scan_string/scan_buffer/flush from actions and between calls, executed only when valid by rules shared by harness and model; one byte queue per buffer in the model; caller memory is overwritten after scan_bytes/scan_string; flush positions are checked against bytes actually delivered.",
+                text="Random histories of create/switch/push/pop/delete/scan_bytes/scan_string/scan_buffer/flush from actions and between calls, executed only when valid by rules shared by harness and model; one byte queue per buffer in the model; caller memory is overwritten after scan_bytes/scan_string; flush positions are checked against bytes actually delivered.  Includes yyrestart() and yypush_buffer_state() while the scanner has no current buffer (after the current one was deleted, or as the first call of the program).",
                 ref="4 C11"),
     "C02": dict(cat="exploration", tech="differential co-simulation across 8-12 sampled configurations per rule set + refusal table",
                 text="Each rule set (with ^, trailing context, REJECT, yymore/yyless, NUL and 8-bit patterns) is built under configurations sampled from tables x align x 7/8 bit x -I/-B x %pointer/%array x {nr, reentrant, c99, C++} x {%option, command line}; every run must match the one model stream, hence all configurations agree; part B replays the manual's unsupported combinations and expects the documented refusal or warning.",
                 ref="4 C02"),
     "C12": dict(cat="exploration", tech="multi-instance programs: seeded interleavings under ASan, one thread per instance under ThreadSanitizer, per-instance co-simulation; nm for multi-prefix links",
-                text="2-16 instances of one scanner (reentrant C, c99, C++ objects) in one process, each with its own input and log: interleaved on one thread by seeded schedules, and on one thread per instance under TSan with yields in the read path; each log must equal the instance's solo model stream; TSan reports are violations; scanners with different prefixes are linked into one program and their symbol tables checked.",
+                text="2-16 instances of one scanner (reentrant C, c99, C++ objects) in one process, each with its own input and log: interleaved on one thread by seeded schedules, and on one thread per instance under TSan with yields in the read path; each log must equal the instance's solo model stream; TSan reports are violations; scanners with different prefixes are linked into one program and their symbol tables checked.  Programs whose instances share tables loaded from a file; C++ objects built in dirty storage with both constructors.",
                 ref="4 C12"),
     "C13": dict(cat="exploration", tech="ASan/UBSan + allocation ledger + destroy-and-reuse sessions over the workloads of C03-C11; memcheck sample",
-                text="The workloads of C03-C11 re-run with user allocators that keep a ledger (unknown pointers to yyfree/yyrealloc, blocks left after yylex_destroy), a second session on the destroyed scanner, %array tokens around YYLMAX, everything under ASan+UBSan, a sample under valgrind memcheck.",
+                text="The workloads of C03-C11 re-run with user allocators that keep a ledger (unknown pointers to yyfree/yyrealloc, blocks left after yylex_destroy), a second session on the destroyed scanner, %array tokens around YYLMAX, everything under ASan+UBSan, a sample under valgrind memcheck.  C++ lexers are constructed in storage filled with 0xA5.",
                 ref="4 C13"),
     "C14": dict(cat="fault_enumeration", tech="fault injection: k-th allocation failure for every k, EIO/EINTR at every read index, classification of the exit path",
-                text="For each scenario the allocation requests are counted and every single one is failed in turn; EIO and EINTR are injected at every read index of the fread, getc and read(2) paths; each faulty run must end in the fatal-error hook with the documented message or the documented error return, with an undisturbed prefix before it; EINTR must leave the stream identical.",
+                text="For each scenario the allocation requests are counted and every single one is failed in turn; EIO and EINTR are injected at every read index of the fread, getc and read(2) paths; each faulty run must end in the fatal-error hook with the documented message or the documented error return, with an undisturbed prefix before it; EINTR must leave the stream identical.  Table loading is enumerated for compressed and for -Cf/-CF files.  A crash right after an injected failure is a violation even when the log was lost.",
                 ref="4 C14"),
     "C15": dict(cat="fault_enumeration", tech="round-trip co-simulation, independent parser of the file format, --tables-verify, concatenation, truncation at every offset",
                 text="Serialized-table scanners are co-simulated with the same model as the in-code build; the file is parsed by an independent reader of the documented layout; verify builds must accept their own file and reject one with a changed entry; sets are found by name in concatenations; every truncation point of small files (sampled for large) and wrong magic / name must fail cleanly under ASan.",
@@ -70,10 +70,10 @@ CHECKS = {
                 text="The same specification and options are generated under MALLOC_PERTURB_, an LD_PRELOAD junk-fill/padding allocator shim with skewed time(), other cwd/TMPDIR/argv[0], ASan fill bytes and -t; scanner, header, tables and backup files must be byte-identical; a sample runs under memcheck; scan.l is regenerated by the final flex and compared with the stage-1 scanner.",
                 ref="4 C18"),
     "C19": dict(cat="exploration", tech="finite option table: nm, compile-time and run-time probes with/without each option, %option vs command line",
-                text="Every row of an option table transcribed from the manual is probed on a scanner built with the option as %option, on the command line, and without it (symbols, static assertions, pointer types, run-time output, files, diagnostics); a row only counts when the probe distinguishes with from without.",
+                text="Every row of an option table transcribed from the manual is probed on a scanner built with the option as %option, on the command line, and without it (symbols, static assertions, pointer types, run-time output, files, diagnostics); a row only counts when the probe distinguishes with from without.  Every spelling in the manual's option list (101 of them) is also handed to flex and must be recognized.",
                 ref="4 C19"),
     "C20": dict(cat="exploration", tech="tracer payloads in every user-code region read back from the compiled scanner; #line self-consistency scan",
-                text="Specifications with tracers in every user-code region carry hostile payloads (m4 quotes, m4_/M4_ names, $1, quotes, comment delimiters, backslash-newline, high bytes) in strings, comments and stringified code; the compiled scanner reports payload bytes and __LINE__/__FILE__, which must equal the tracer's true position; every '#line N \"outfile\"' must sit at line N-1; noline must leave none.",
+                text="Specifications with tracers in every user-code region carry hostile payloads (m4 quotes, m4_/M4_ names, $1, quotes, comment delimiters, backslash-newline, high bytes) in strings, comments and stringified code; the compiled scanner reports payload bytes and __LINE__/__FILE__, which must equal the tracer's true position; every '#line N \"outfile\"' must sit at line N-1; noline must leave none.  File names with quotes and backslashes, lines longer than 4095 bytes, header files.",
                 ref="4 C20"),
 }
 
